@@ -411,3 +411,47 @@ example :
 example : SimQ ⟨{}, 0, 0⟩ ({}, 0) := simQ_init 0
 
 end Swat4.C11
+
+/-! # Additions: what `Update` does when the resolver refuses -/
+namespace Swat4.C11
+open Swat4 Swat4.RStore Std
+
+/-- **`Update` with a refusing resolver** (clause "update … consults the resolver exactly when the stored version is
+newer"; the property text says what a refusal means for `add` — *exists* — but not for `update`).  The specification
+(`Spec/Registry.lean`, `AbsState.update`) pins it: when the stored version is newer than the caller's and the resolver
+refuses, nothing changes and the call returns **the stored (newer) record with no error**.  This is what the Go
+repository does — `servers.go`, `update`: `if !onConflict(&resolved) { return existing, nil }` ("return the newer
+version of the server in case the caller has decided not to resolve the conflict") — and it differs on purpose from
+`add` (`ErrServerExists`) and from a missing address (`ErrServerNotFound`). -/
+theorem update_refused (a : AbsState) (now : Int) (svr : Server) (res : Resolver) (ex : SRow)
+    (hrow : a.getRow svr.addr = some ex) (hv : ex.svr.version > svr.version) (hres : res ex.svr = none) :
+    a.update now svr res = (a, .ok ex.svr) := by
+  simp only [AbsState.update, hrow, hv, if_true, hres]
+
+/-- … and the Redis-level writer machine returns the same stored record (as `ok (some ·)`) and leaves the rows alone -/
+theorem update_refused_machine {st : RStore} {a : AbsState} (hrel : Rel st a) (clock : Int) (svr : Server) (res : Resolver)
+    (ex : SRow) (tok fresh : Nat) (hno : st.locks[svr.addr.key]? = none)
+    (hrow : a.getRow svr.addr = some ex) (hv : ex.svr.version > svr.version) (hres : res ex.svr = none) :
+    (runWriter st clock (Writer.start ⟨.update, svr, res⟩ tok) fresh 16).2.pc = .done (.ok (some ex.svr)) ∧
+    Rel (runWriter st clock (Writer.start ⟨.update, svr, res⟩ tok) fresh 16).1 a := by
+  have h := update_refines hrel clock svr res tok fresh hno
+  rw [update_refused a clock svr res ex hrow hv hres] at h
+  exact ⟨h.2, h.1⟩
+
+/-- the registry after `Add demoServer` at clock 5: one row, version 1 -/
+def demoState : AbsState := (({} : AbsState).save 5 demoServer).1
+
+/-- the concrete instance: the stored record has version 1, the caller comes with version 0 and a resolver that
+refuses; `update` returns the stored version-1 record, no error, and the state is untouched (the hypotheses of
+`update_refused` are satisfiable) -/
+example : demoState.update 9 demoServer (fun _ => none) = (demoState, .ok { demoServer with version := 1 }) :=
+  update_refused demoState 9 demoServer (fun _ => none) ⟨{ demoServer with version := 1 }, 5⟩
+    (by simp [demoState, AbsState.getRow, AbsState.save, demoServer]) (by decide) rfl
+
+/-- for contrast: the same refusal on `add` is the error *exists*, and on a caller whose version is current the
+resolver is not consulted at all — the caller's record is stored at version + 1 -/
+example : (demoState.add 9 demoServer (fun _ => none)).2 = .error .serverExists ∧
+    (demoState.update 9 { demoServer with version := 1 } (fun _ => none)).2 = .ok { demoServer with version := 2 } := by
+  constructor <;> simp [demoState, AbsState.add, AbsState.update, AbsState.getRow, AbsState.save, demoServer]
+
+end Swat4.C11
